@@ -246,7 +246,10 @@ impl Universe {
     pub fn pat_req(&self, p: &Pat) -> String {
         match p {
             Pat::Wild => "_".into(),
-            Pat::Bind(_) => "b".into(),
+            Pat::Bind(x) => match x.strip_prefix('x').and_then(|n| n.parse::<usize>().ok()) {
+                Some(n) => format!("b{n}"),
+                None => "b".into(),
+            },
             Pat::Bool(true) => "pt".into(),
             Pat::Bool(false) => "pf".into(),
             Pat::Int(i) => format!("i{i}"),
@@ -346,17 +349,37 @@ impl Universe {
 
     // ------------------------------------------------------------ generation
     pub fn gen_pat(&self, ty: &Ty, depth: usize, rng: &mut Rng, binds: &mut Option<Vec<(String, Ty)>>, avoid_d31: bool) -> Pat {
-        let r = rng.below(100);
+        let mut r = rng.below(100);
+        if MORE_BINDS.load(std::sync::atomic::Ordering::Relaxed) && binds.is_some() {
+            // shift a fifth of the draws into the binding / or-with-bindings window
+            if r >= 80 {
+                r = 18 + (r - 80) * 12 / 20;
+            }
+        }
         if r < 18 {
             return Pat::Wild;
         }
         if r < 26 {
             if let Some(b) = binds {
-                let name = format!("x{}", b.len());
-                b.push((name.clone(), ty.clone()));
-                return Pat::Bind(name);
+                if matches!(ty, Ty::Bool | Ty::Int | Ty::Float | Ty::Str) {
+                    let name = format!("x{}", b.len());
+                    b.push((name.clone(), ty.clone()));
+                    return Pat::Bind(name);
+                }
             }
             return Pat::Wild;
+        }
+        if r < 30 && depth > 0 && binds.is_some() {
+            // or-pattern WITH bindings: the right alternative is a literal-mutation of the left one,
+            // so both bind the same names at the same types
+            let l = self.gen_pat(ty, depth - 1, rng, binds, avoid_d31);
+            if !matches!(l, Pat::Or(..)) {
+                let r = self.mutate_keep_binds(&l, ty, rng);
+                if r != l {
+                    return Pat::Or(Box::new(l), Box::new(r));
+                }
+            }
+            return l;
         }
         if r < 38 && depth > 0 {
             // or-pattern: no bindings inside (both sides would have to bind the same names);
@@ -401,7 +424,8 @@ impl Universe {
                 let var = &self.enums[*e][i];
                 let q = rng.chance(1, 4);
                 let single_void = var.fields.len() == 1 && var.fields[0] == Ty::Void;
-                if var.fields.is_empty() || (single_void && !var.named && rng.chance(1, 2)) {
+                let avoid_named = AVOID_NAMED_VOID.load(std::sync::atomic::Ordering::Relaxed);
+                if var.fields.is_empty() || (single_void && !var.named && rng.chance(1, 2)) || (single_void && var.named && avoid_named) {
                     return Pat::Variant0(*e, i, q);
                 }
                 if depth == 0 && var.fields.len() > 1 {
@@ -419,6 +443,36 @@ impl Universe {
                 let inner = if ps.len() == 1 { ps.into_iter().next().unwrap() } else { Pat::Tuple(ps) };
                 Pat::VariantPos(*e, i, Box::new(inner), q)
             }
+        }
+    }
+
+    /// same shape and the same bindings, other literals
+    pub fn mutate_keep_binds(&self, p: &Pat, ty: &Ty, rng: &mut Rng) -> Pat {
+        match (p, ty) {
+            (Pat::Bool(b), _) => if rng.chance(2, 3) { Pat::Bool(!b) } else { Pat::Wild },
+            (Pat::Int(_), _) => Pat::Int(*rng.pick(&INTS)),
+            (Pat::Float(_), _) => Pat::Float(rng.pick(&FLOATS).to_string()),
+            (Pat::Str(_), _) => Pat::Str(rng.pick(&STRS).to_string()),
+            (Pat::Wild, Ty::Bool) => Pat::Bool(rng.chance(1, 2)),
+            (Pat::Wild, Ty::Int) => Pat::Int(*rng.pick(&INTS)),
+            (Pat::Tuple(ps), _) | (Pat::Struct(_, ps, _), _) => {
+                let tys = self.product_tys(ty);
+                let qs: Vec<Pat> = ps.iter().zip(&tys).map(|(q, t)| self.mutate_keep_binds(q, t, rng)).collect();
+                match p {
+                    Pat::Tuple(_) => Pat::Tuple(qs),
+                    Pat::Struct(id, _, o) => Pat::Struct(*id, qs, o.clone()),
+                    _ => unreachable!(),
+                }
+            }
+            (Pat::VariantPos(e, i, q, qual), _) => {
+                Pat::VariantPos(*e, *i, Box::new(self.mutate_keep_binds(q, &self.data_ty(*e, *i), rng)), *qual)
+            }
+            (Pat::VariantNamed(e, i, ps, o, qual), _) => {
+                let tys = self.enums[*e][*i].fields.clone();
+                let qs = ps.iter().zip(&tys).map(|(q, t)| self.mutate_keep_binds(q, t, rng)).collect();
+                Pat::VariantNamed(*e, *i, qs, o.clone(), *qual)
+            }
+            (other, _) => other.clone(),
         }
     }
 
@@ -481,6 +535,11 @@ impl Universe {
         out
     }
 }
+
+/// generator switches set by a harness before generating (C14: more bindings; keep named
+/// sub-patterns on void payloads out while D47 is not repaired)
+pub static AVOID_NAMED_VOID: std::sync::atomic::AtomicBool = std::sync::atomic::AtomicBool::new(false);
+pub static MORE_BINDS: std::sync::atomic::AtomicBool = std::sync::atomic::AtomicBool::new(false);
 
 pub fn shuffled(n: usize, rng: &mut Rng) -> Vec<usize> {
     let mut v: Vec<usize> = (0..n).collect();
@@ -950,4 +1009,91 @@ pub fn request(u: &Universe, mode: &str, ty: &Ty, arms: &[Pat]) -> String {
 /// a scrutinee value for the static checks (any value of the type will do)
 pub fn some_value(u: &Universe, ty: &Ty) -> Val {
     u.values(ty, 2).into_iter().next().unwrap()
+}
+
+// ---------------------------------------------------------------- C14: bindings
+/// bindings of the first alternative that matches (left to right), in slot order
+pub fn bindings(p: &Pat, v: &Val, out: &mut Vec<(String, Val)>) {
+    match (p, v) {
+        (Pat::Bind(x), v) => out.push((x.clone(), v.clone())),
+        (Pat::Tuple(ps), Val::Prod(vs)) | (Pat::Struct(_, ps, _), Val::Prod(vs)) => {
+            for (p, v) in ps.iter().zip(vs) {
+                bindings(p, v, out);
+            }
+        }
+        (Pat::VariantPos(_, _, p, _), Val::Variant(_, pl)) => bindings(p, pl, out),
+        (Pat::VariantNamed(_, _, ps, _, _), Val::Variant(_, pl)) => {
+            if ps.len() == 1 {
+                bindings(&ps[0], pl, out)
+            } else if let Val::Prod(vs) = &**pl {
+                for (p, v) in ps.iter().zip(vs) {
+                    bindings(p, v, out);
+                }
+            }
+        }
+        (Pat::Or(l, r), v) => {
+            if matches(l, v) {
+                bindings(l, v, out)
+            } else {
+                bindings(r, v, out)
+            }
+        }
+        _ => {}
+    }
+}
+
+/// names bound by a pattern with their types (left alternative of or-patterns)
+pub fn bound_vars(u: &Universe, p: &Pat, ty: &Ty, out: &mut Vec<(String, Ty)>) {
+    match p {
+        Pat::Bind(x) => out.push((x.clone(), ty.clone())),
+        Pat::Tuple(ps) | Pat::Struct(_, ps, _) => {
+            for (q, t) in ps.iter().zip(u.product_tys(ty)) {
+                bound_vars(u, q, &t, out);
+            }
+        }
+        Pat::VariantPos(e, i, q, _) => bound_vars(u, q, &u.data_ty(*e, *i), out),
+        Pat::VariantNamed(e, i, ps, _, _) => {
+            for (q, t) in ps.iter().zip(&u.enums[*e][*i].fields) {
+                bound_vars(u, q, t, out);
+            }
+        }
+        Pat::Or(l, _) => bound_vars(u, l, ty, out),
+        _ => {}
+    }
+}
+
+pub fn val_req(v: &Val) -> String {
+    match v {
+        Val::Bool(true) => "vt".into(),
+        Val::Bool(false) => "vf".into(),
+        Val::Int(i) => format!("vi{i}"),
+        Val::Float(b) => format!("vd{b}"),
+        Val::Str(s) => format!("vs{}", hex(s.as_bytes())),
+        Val::Prod(vs) => format!("vP {}{}", vs.len(), vs.iter().map(|v| format!(" {}", val_req(v))).collect::<String>()),
+        Val::Variant(i, pl) => format!("vV {i} {}", val_req(pl)),
+    }
+}
+
+/// the model's rendering of a base value (`showSVal`)
+pub fn base_canon(v: &Val) -> String {
+    match v {
+        Val::Bool(b) => format!("{b}"),
+        Val::Int(i) => format!("{i}"),
+        Val::Float(b) => format!("F{b}"),
+        Val::Str(s) => format!("S{}", hex(s.as_bytes())),
+        _ => "?".into(),
+    }
+}
+
+/// parse what `println("x" .. v)` printed for a base-typed variable back into the canonical form
+pub fn printed_canon(text: &str, ty: &Ty) -> String {
+    match ty {
+        Ty::Bool | Ty::Int => text.to_string(),
+        Ty::Float => match text.parse::<f64>() {
+            Ok(f) => format!("F{}", f.to_bits()),
+            Err(_) => format!("unparsed<{text}>"),
+        },
+        Ty::Str => format!("S{}", hex(text.as_bytes())),
+        _ => "?".into(),
+    }
 }
